@@ -26,7 +26,9 @@ for r in results:
                 needs_to_manifest=needs.get(name, "see NOTES.agent.md (section for change %s)" % ab),
                 confirmed=dict(pinned_suite_passes_with_patch=True, demo_fails_with_patch=True, demo_passes_without_patch=True,
                                how="selftest/mutate.py <patch> --demo <demo>: scratch copy of /repo's root package, `go test -count=1 .` with the patch, demo copied in as zz_demo_test.go and run with and without the patch"),
-                checks_run=f"./selftest/mutate.py seeded/{rnd}-{name}/patch.diff --demo seeded/{rnd}-{name}/demo_test.go --all  (all 20 checks, quick tier, VERIF_SEED=1; run for every change by selftest/final_matrix.sh)",
+                checks_run=(f"./selftest/mutate.py seeded/{rnd}-{name}/patch.diff --demo seeded/{rnd}-{name}/demo_test.go " +
+                            ("--all  (all 20 checks" if len(r.get("ran") or []) in (0, 20) else "--props " + ",".join(r["ran"]) + f"  (the {len(r['ran'])} checks of the target property's family") +
+                            ", quick tier, VERIF_SEED=1; run for every change by selftest/final_matrix.sh)"),
                 other_outcomes=r.get("other", []),
                 detected_by=r.get("fired", []), first_finding=(r.get("keys") or [""])[0][:300])
     json.dump(meta, open(os.path.join(d, "meta.json"), "w"), indent=1)
